@@ -205,7 +205,7 @@ def _decode_tla_string(s):
 
 
 def tlc(module_path, cfg_path, name, env=None, workers=16, coverage=True, cont=True,
-        timeout=1800, simulate=None, heap="8g", deadlock=False, dfs=False, seed_arg=None):
+        timeout=1800, simulate=None, heap="8g", deadlock=False, dfs=False, seed_arg=None, extra=None):
     """Run TLC; parse summary, coverage and `VP|...` print lines."""
     meta = os.path.join(WORK, "tlc-" + name)
     shutil.rmtree(meta, ignore_errors=True)
@@ -223,6 +223,8 @@ def tlc(module_path, cfg_path, name, env=None, workers=16, coverage=True, cont=T
         cmd += ["-simulate", simulate[0], "-depth", str(simulate[1])]
     if seed_arg is not None:
         cmd += ["-seed", str(seed_arg)]
+    if extra:
+        cmd += list(extra)
     if deadlock:
         cmd += ["-deadlock"]
     cmd += [module_path]
